@@ -408,6 +408,36 @@ class NativeBackend(BackendBase):
             restore()
             self.meta["state_via"] = "private"
 
+    def try_public_laws(self, unis, laws):
+        """reach the privately installed universe<->laws binding with the public setters"""
+        tgt = {id(u): u.__dict__["_laws"] for u in unis}
+        tl = {id(L): L.__dict__["_applies_to"] for L in laws}
+        hist = []
+        try:
+            # constructed state first (each pool universe bound to its own law set is
+            # whatever the constructor left; we only need *a* public history)
+            for u in unis:
+                u.__dict__["_laws"] = None
+            for L in laws:
+                L.__dict__["_applies_to"] = None
+            for u in unis:
+                if tgt[id(u)] is not None:
+                    u.laws = tgt[id(u)]
+                    hist.append(f"{self.label_of(u)}.laws = {self.label_of(tgt[id(u)])}")
+            ok = all(u.__dict__["_laws"] is tgt[id(u)] for u in unis) and \
+                all(L.__dict__["_applies_to"] is tl[id(L)] for L in laws)
+        except Exception:
+            ok = False
+        if ok:
+            self.meta["state_via"] = "public"
+            self.meta["history"] = ["all universes detached (u.laws = None)"] + hist
+        else:
+            for u in unis:
+                u.__dict__["_laws"] = tgt[id(u)]
+            for L in laws:
+                L.__dict__["_applies_to"] = tl[id(L)]
+            self.meta["state_via"] = "private"
+
     def result(self):
         idmap = self.idmap()
         return {
